@@ -43,8 +43,8 @@ def to_v(it, x):
         return ctx.lit(x)
     if isinstance(x, tuple):
         return mk_tuple(ctx, [to_v(it, e) for e in x])
-    if isinstance(x, Instance) and "vref" in x.ctx.store[x.id]:
-        return x.ctx.store[x.id]["vref"]
+    if isinstance(x, Instance) and getattr(x, "href", None) is not None:
+        return x.href
     raise Unsupported(f"cannot embed {x!r} into V")
 
 
@@ -1231,6 +1231,9 @@ def _isinstance(it, args, kwargs):
     if name is None:
         raise Unsupported(f"isinstance with {t!r}")
     if isinstance(x, Instance):
+        if getattr(x, "maybe_none", False):
+            # a reference read from a heap field: None or an instance of the field's class
+            return and_(it, x.href != NONE, it.is_subclass(x.cls, t) if isinstance(t, ClassObj) else False)
         if isinstance(t, ClassObj):
             return it.is_subclass(x.cls, t)
         bt = it.base_type(x.cls)
